@@ -971,6 +971,11 @@ pub fn c19(rec: &mut Rec, lm: &Landmarks, rng: &mut Rng, thorough: bool) {
             }
         }
     }
+    // the tokens that are rendered but not judged (%J fractional day of year, %w weekday number, %y short year),
+    // alone (the formatter's path without calendar fields) and next to calendar tokens
+    for f in ["%J", "%w", "%y", "%J %w", "%w %A", "%T %J", "%z %w", "%Y %J", "%Y-%m-%d %w", "%y-%m-%d", "%y%j", "%A %w %a"] {
+        formats.push(f.to_string());
+    }
     if thorough {
         for a in TOKS {
             for s1 in ["", "-", " ", ", "] {
